@@ -69,6 +69,8 @@ type Ctx struct {
 	deadline   int64 // real ns; 0 = none
 	seed       int64
 	MaxSamples int
+	memTick    int64
+	memOver    bool
 }
 
 // RealNow returns real wall-clock nanoseconds even inside a synctest bubble
@@ -163,6 +165,19 @@ func (c *Ctx) Unit(k, sub int) (mine bool, slice func(key string) bool, n int) {
 // TimeUp reports that the internal real-time deadline has passed; the harness then
 // stops enumerating, marks the run non-exhaustive and still exits 0 if nothing failed.
 func (c *Ctx) TimeUp() bool {
+	// memory budget: exploration harnesses leak a little of the code under test with every
+	// execution; a shard that has grown past the budget stops like one that has run out of time
+	// (sixteen of them side by side must not exhaust the machine)
+	c.memTick++
+	if c.memTick%32 == 0 || c.memOver {
+		if !c.memOver && rssMB() > rssLimitMB() {
+			c.memOver = true
+		}
+		if c.memOver {
+			c.Cap("memory budget of the shard process reached")
+			return true
+		}
+	}
 	if c.deadline == 0 {
 		return false
 	}
@@ -469,4 +484,25 @@ func (c *Ctx) StartWatchdog(prop string, limitS int) {
 			}
 		}
 	}()
+}
+
+// rssMB returns the resident set size of this process in MiB (0 if it cannot be read).
+func rssMB() int {
+	b, err := os.ReadFile("/proc/self/statm")
+	if err != nil {
+		return 0
+	}
+	f := strings.Fields(string(b))
+	if len(f) < 2 {
+		return 0
+	}
+	pages, _ := strconv.Atoi(f[1])
+	return pages * os.Getpagesize() / (1 << 20)
+}
+
+func rssLimitMB() int {
+	if v, err := strconv.Atoi(os.Getenv("VERIF_RSS_LIMIT_MB")); err == nil && v > 0 {
+		return v
+	}
+	return 2500
 }
